@@ -28,7 +28,7 @@ tvars == <<vars, l>>
 
 FSet(s) == {[f |-> x.f, pre |-> x.pre, tok |-> x.tok] : x \in Rng(s)}
 MSet(s) == {[k |-> x.k, pre |-> x.pre, tok |-> x.tok] : x \in Rng(s)}
-StepOf(s) == [def |-> s.def, call |-> s.call, bad |-> s.bad, tag |-> s.tag, fields |-> FSet(s.fields), md |-> MSet(s.md)]
+StepOf(s) == [def |-> s.def, call |-> s.call, bad |-> s.bad, tag |-> s.tag, sleep |-> s.sleep, fields |-> FSet(s.fields), md |-> MSet(s.md)]
 FileOf(es) == [i \in 1..Len(es) |-> [name |-> es[i].name, steps |-> [j \in 1..Len(es[i].steps) |-> StepOf(es[i].steps[j])]]]
 
 Mark == TLCSet(1, IF TLCGet(1) > l + 1 THEN TLCGet(1) ELSE l + 1)
@@ -47,16 +47,23 @@ Fresh(k, f, n) ==
     /\ shared' = [x \in {} |-> "T"]
     /\ cache' = [g \in Guns |-> [x \in {} |-> "none"]]
     /\ nx' = 0 /\ recvlog' = {}
+    \* the timeout is not modelled in ticks here (clk stays 0): a call that failed on a deadline is a failed
+    \* sample of a good step, which has no action
+    /\ rcfg' = [shared |-> Ev.shared, refl |-> Ev.refl, T |-> 0]
+    /\ conn' = [g \in Guns |-> "none"] /\ clk' = [g \in Guns |-> 0]
     /\ nsample' = [i \in DOMAIN f |-> [ok |-> 0, fail |-> 0]]
 
 TRun == Ev.ev = "Run" /\ AllIdle /\ Fresh(Ev.kind, FileOf(Ev.entries), Ev.inst)
 TNewGun == Ev.ev = "NewGun" /\ Ev.gun \in Guns /\ NewGun(Ev.gun)
 TBind == Ev.ev = "Bind" /\ Ev.ok /\ Ev.gun \in Guns /\ Bind(Ev.gun, Ev.inst)
-TShootBegin == /\ Ev.ev = "ShootBegin" /\ Ev.gun \in Guns
-               /\ \E idx \in DOMAIN file : file[idx].name = Ev.ammo /\ ShootBegin(Ev.gun, idx, Ev.gid)
+\* grpc/json: the entry of that name not yet delivered (undecodable lines share the name "!invalid": the first one)
+Cand == {i \in DOMAIN file : file[i].name = Ev.ammo /\ (kind = "json" => started[i] = 0)}
+TShootBegin == /\ Ev.ev = "ShootBegin" /\ Ev.gun \in Guns /\ Cand # {}
+               /\ IF kind = "json" THEN ShootBegin(Ev.gun, CHOOSE i \in Cand : \A j \in Cand : i <= j, Ev.gid)
+                                    ELSE \E idx \in Cand : ShootBegin(Ev.gun, idx, Ev.gid)
 ObsRec == [method |-> Ev.method, fields |-> FSet(Ev.fields), md |-> MSet(Ev.md)]
 TRecv == /\ Ev.ev = "Recv"
-         /\ \E g \in Guns : sh[g].ph = "call" /\ Fits(CurStep(g), ObsRec) /\ SendAct(g, ObsRec, shared, cache, 0)
+         /\ \E g \in Guns : sh[g].ph = "call" /\ Fits(CurStep(g), ObsRec) /\ SendAct(g, ObsRec, shared, cache, 0, Ev.srv)
 TSample == /\ Ev.ev = "Sample"
            /\ \E g \in Guns : sh[g].ph \in {"call", "sample"} /\ sh[g].gid = Ev.gid /\ Sample(g, Ev.tag, Ev.code = 200)
 TShootEnd == Ev.ev = "ShootEnd" /\ Ev.gun \in Guns /\ sh[Ev.gun].gid = Ev.gid /\ ShootEnd(Ev.gun)
